@@ -215,6 +215,8 @@ func (w *world) apply(target string, o wop) {
 		w.c.Reset(target)
 	case "remove":
 		w.c.Remove(target)
+	case "add":
+		w.c.Add(target)
 	case "sync":
 		w.c.Sync(target)
 	}
